@@ -139,11 +139,20 @@ def impl(op, a):
             return guarded(lambda: _fmeshes(set(M().all_syms())))
     if op == "eq.cl":
         g = _gperm(a[0])
-        return guarded(lambda: fbool(g(Perm(pseq(a[1]))).contains(g(Perm(pseq(a[2]))))))
+
+        def fcl():
+            # the same two objects are first used in the original query (this fills the pattern's
+            # memoised search table) and then mapped by the symmetry: images of *used* objects
+            s, p = Perm(pseq(a[1])), Perm(pseq(a[2]))
+            s.contains(p)
+            p.contains(s)
+            return fbool(g(s).contains(g(p)))
+        return guarded(fcl)
     if op == "eq.mesh":
         def f():
             g = a[0]
             s, m = Perm(pseq(a[1])), _mesh(a[2], a[3])
+            s.contains(m)          # use the objects before mapping them (memoised tables are filled)
             if g == "rev":
                 s2, m2 = s.reverse(), m.reverse()
             elif g == "comp":
